@@ -310,6 +310,9 @@ class ApiModel(object):
             return ("RUNNING", None, None) if now < ex["startDate"] + st["Seconds"] else ("SUCCEEDED", ex["input"], None)
         if t == "Pass" and "Result" in st:
             return "SUCCEEDED", st["Result"], None
+        if t == "Parallel":
+            # (the generator's Parallel machines: every branch is one Pass state with a Result)
+            return "SUCCEEDED", [b["States"][b["StartAt"]]["Result"] for b in st["Branches"]], None
         return "SUCCEEDED", ex["input"], None
 
     def x_DescribeExecution(self, p, now):
